@@ -190,8 +190,13 @@ def injectivity_and_resolution(_):
         idx = TaskIndex(pathlib.Path(root))
         for t in tasks:
             ident = TaskIdentifier.from_str(t["id"])
-            idx.load_transitive_closure(ident)
-            got = [str(d) for d in idx.get_task(ident).deps]
+            try:
+                idx.load_transitive_closure(ident)
+                got = [str(d) for d in idx.get_task(ident).deps]
+            except Exception as ex:  # a sound project: any error here means a dependency was resolved to the wrong place
+                out["reach"]["c20_relative_dep_resolutions"] = out["reach"].get("c20_relative_dep_resolutions", 0) + 1
+                out["violations"].append({"key": "C20:relative-dependency-resolved-against-wrong-directory", "msg": "%s lists %s (all defined next to it); loading failed with %s: %s" % (t["id"], t["dep_strs"], type(ex).__name__, getattr(ex, "printable_message", lambda: str(ex))()), "witness": {"task": t}})
+                continue
             out["reach"]["c20_relative_dep_resolutions"] = out["reach"].get("c20_relative_dep_resolutions", 0) + len(got)
             if got != t["deps"]:
                 out["violations"].append({"key": "C20:relative-dependency-resolved-against-wrong-directory", "msg": "%s lists %s; loaded deps %s, expected %s" % (t["id"], t["dep_strs"], got, t["deps"]), "witness": {"task": t}})
